@@ -16,6 +16,7 @@ type simHooks struct {
 	hits    map[string]int64
 	onPoint func(owner any, name string, hit int64) // called outside mu
 	onFault func(owner any, name string, hit int64) error
+	onFaultOn func(owner any, name string, subject any, hit int64) error
 	sched   *Sched
 }
 
@@ -44,6 +45,7 @@ func ResetHooks(sc *Scenario) {
 	hooks.hits = map[string]int64{}
 	hooks.onPoint = nil
 	hooks.onFault = nil
+	hooks.onFaultOn = nil
 	hooks.sched = nil
 }
 
@@ -94,6 +96,18 @@ func (h *simHooks) Fault(owner any, name string) error {
 		return f(owner, name, n)
 	}
 	return nil
+}
+
+func (h *simHooks) FaultOn(owner any, name string, subject any) error {
+	n := h.count(name)
+	var err error
+	if f := h.onFaultOn; f != nil {
+		err = f(owner, name, subject, n)
+	}
+	if s := h.sched; s != nil {
+		s.point(owner, name)
+	}
+	return err
 }
 
 func (h *simHooks) Go(owner any, name string) {
